@@ -13,6 +13,20 @@ CFG = {
         "Swat4.C12.enqueue_one_batch",
         "Swat4.C12.no_leak",
         "Swat4.C12.pop_nonpositive",
+        "Swat4.C12.ghost_faithful",
+        "Swat4.C12.ghost_popped",
+        "Swat4.C12.batch_is_log",
+        "Swat4.C12.ids_fresh",
+        "Swat4.C12.enqueue_uses_fresh",
+        "Swat4.C12.conservation",
+        "Swat4.C12.integrity",
+        "Swat4.C12.at_most_once",
+        "Swat4.C12.batch_size",
+        "Swat4.C12.not_early",
+        "Swat4.C12.not_late",
+        "Swat4.C12.no_leak_run",
+        "Swat4.C12.no_leak_finish",
+        "Swat4.C12.batch_unsorted_witness",
     ],
     "shards": (1, 16),
     "nontrivial": _nontrivial,
